@@ -168,6 +168,30 @@ def check(model: Model, run: Run) -> None:
     if n6 == 0:
         run.cannot('messages(): the branch moving announced NLRIs into the NLRI-field list was not found')
 
+    # ------------------------------------------------------------------ R7 nothing is sent twice
+    run.rule('C09.R7', 'a buffer that went out in one message is emptied (or restarted with the pending prefix) before the next message that includes it: no route is sent twice and no stale bytes eat the room of the next message', floor=4)
+    cfg7 = CFG(msgs.node)
+    ynodes = [(y, cfg7.stmt_node_containing(y)) for y in walk_no_nested(msgs.node) if isinstance(y, ast.Yield)]
+    n7 = 0
+    for y, yn in ynodes:
+        if yn is None or y.value is None:
+            continue
+        inc = {x.id for x in ast.walk(y.value) if isinstance(x, ast.Name)} & roles.bufs
+        for b_ in sorted(inc):
+            n7 += 1
+            resets = {cfg7.node_of(a).id for a in walk_no_nested(msgs.node) if isinstance(a, ast.Assign) and any(isinstance(t, ast.Name) and t.id == b_ for t in a.targets) and cfg7.node_of(a) is not None}
+            again = {n2.id for y2, n2 in ynodes if n2 is not None and y2.value is not None and b_ in {x.id for x in ast.walk(y2.value) if isinstance(x, ast.Name)}}
+            bad = None
+            for succ, lab in yn.succ:
+                if lab == 'exc' or succ in resets:
+                    continue
+                passed, wit = cfg7.all_paths_pass(succ, resets, again)
+                if not passed:
+                    bad = wit
+            run.check(bad is None, msgs.qualname, 'buffer emptied after the message it went out in', msgs.loc(y), 'after this message the buffer `%s` still holds what was just sent and is written again into a later message (%s): those prefixes go out twice and shrink the room handed to the next attribute, which can end in "NLRI too large" with the remaining routes lost' % (b_, ' -> '.join(cfg7.describe_path(bad)[-4:]) if bad else ''))
+    if n7 < 4:
+        run.cannot('only %d (message, buffer) pairs found in messages()' % n7)
+
     # ------------------------------------------------------------------ R2 predictor = writer
     run.rule('C09.R2', 'length predictors agree with the writers on the extended-length switch: payload > 255 means a 4-byte attribute header in _attr_len, _attribute_header, Attribute._attribute and Attribute._len', floor=3)
     al = model.func(MPC + '._attr_len')
